@@ -13,16 +13,11 @@ Open Scope Z_scope.
 Definition blank_request (raw : list N) : T_Request :=
   ltac:(repeat first [ exact raw | exact false | exact 0%N | exact 0%Z | exact nil | constructor ]).
 
-(* Request.parseWireOPT(off): is the single additional record an OPT the strict path admits ... *)
-Definition wire_opt_admitted (raw : list N) (off : Z) : option bool :=
+(* Request.parseWireOPT(off) on a fresh request: is the single additional record an OPT the strict path
+   admits, and the Request the caller sees afterwards (the translator hands the mutated receiver
+   back as the last result) *)
+Definition wire_opt_parse (raw : list N) (off : Z) : option (bool * T_Request) :=
   go_Request_parseWireOPT (S (length raw)) (blank_request raw) off.
-
-(* ... and the facts its option walk leaves on the request (the prelude has checked that the RDATA
-   runs to the end of the packet, so the walk ends at len(raw)) *)
-Definition wire_opt_walk (raw : list N) (off : Z) : go_ctl bool * T_Request :=
-  let '(ctl, st) := go_Request_parseWireOPT_loop1 (S (length raw)) (S (length raw)) (blank_request raw)
-                      (off + 11) raw 0%N 0%N 0%N 0%N 0 (go_len raw) in
-  let '(r, _, _, _, _, _, _, _, _) := st in (ctl, r).
 
 (* the option codes between off and end_, walked as RFC 6891 lays them out *)
 Fixpoint opt_codes_at (fuel : nat) (raw : list N) (off end_ : Z) : option (list N) :=
